@@ -782,7 +782,7 @@ func checkCommitRangeValidation(r *Run, p *Prog) {
 	var path []string
 	n := 0
 	for _, ex := range c.Exits() {
-		if ex.Return == nil || len(ex.Return.Results) != 1 || !isNilIdent(fn, ex.Return.Results[0]) {
+		if ex.Return == nil || !mayReturnNilError(fn, ex.Return) {
 			continue
 		}
 		n++
